@@ -934,6 +934,21 @@ class EnumBatch(pkgrun.Batch):
         return r
 
 
+def load_corpus(prop):
+    """corpus/<prop>/*.json: {"enum": <enum spec>, "flags": [...], "note": ...}; run before the generated cases"""
+    d = os.path.join(core.VERIF, "corpus", prop)
+    out = []
+    if os.path.isdir(d):
+        for fn in sorted(os.listdir(d)):
+            if fn.endswith(".json"):
+                j = _json.load(open(os.path.join(d, fn)))
+                en = j["enum"]
+                en["feature"] = "corpus:" + fn[:-5]
+                en.setdefault("shape", "corpus")
+                out.append((en, j.get("flags", [])))
+    return out
+
+
 def generated_file(written):
     for rel, content in written.items():
         if ".shootenum" in rel and rel.endswith(".go"):
